@@ -49,6 +49,7 @@ func runC14(t *rapid.T) {
 	}
 	b.NoNaN = rapid.Bool().Draw(t, "nonan")
 	var fs *gen.FrameSpec
+	stress := false
 	big := gen.Rare(t, "big", uint64(core.EnvInt("VERIF_BIG_ODDS", 1500)))
 	if big {
 		// size thresholds (tens of kilobytes of output and more)
@@ -58,12 +59,19 @@ func runC14(t *rapid.T) {
 			fs = gen.DrawBigFrame(t, 16385, 20003) // beyond 2^14 rows, about a megabyte of JSON
 			core.Probe("giant-frame")
 		}
+	} else if gen.Rare(t, "stress", 8) {
+		stress = true
+		fs = gen.DrawStressFrame(t)
+		core.Probe("float-stress-frame")
 	} else {
 		fs = gen.DrawFrame(t, b)
 	}
 	scr := gen.DrawScrambleOrEmpty(t, fs)
 	tr := &c14Trace{Frame: fs, Scramble: scr}
 	tr.PipeCap = pipeCaps[rapid.IntRange(0, len(pipeCaps)-1).Draw(t, "pipecap")]
+	if stress && tr.PipeCap < 512 {
+		tr.PipeCap = 512
+	}
 	if big && tr.PipeCap < 4096 {
 		tr.PipeCap = 4096 // a byte-wise hand-off of 100 kB would only burn time
 	}
